@@ -36,3 +36,44 @@ contract(DD + '::DOEDriver._run_case', ['C23'],
                   'traceback.format_exc': Assumed(returns=OpaqueT('tb'))},
          ghost_init={'sets': [], 'ran_after': None},
          canaries=[('array values truncated before assignment', ('self._set_design_var(dv_name, dv_val.flatten())', 'self._set_design_var(dv_name, dv_val.flatten()[:1])'), 'post')])
+
+
+# ---- per-factor level counts of the pyDOE-based generators (full factorial / generalized subset) ---------------
+# "full-factorial designs enumerate exactly the product of the requested levels": the level count requested for a
+# design variable is  levels (int) | levels[name] | levels['default'] | 2 , and _get_all_levels must list that
+# count once per scalar entry of the variable, in design-variable order — the same function the value table in
+# __call__ uses (_get_dv_levels), otherwise design indices and value table disagree.
+DG = 'openmdao/drivers/doe_generators.py'
+LV = lambda: Int(1, None)
+LEVEL_DICTS = OneOf(DictT({'x': LV(), 'y': LV()}), DictT({'x': LV()}), DictT({'y': LV(), 'default': LV()}),
+                    DictT({'default': LV()}), DictT({}))
+REQ = "(self._levels if is_scalar(self._levels) else (self._levels[%r] if %r in self._levels else (self._levels['default'] if 'default' in self._levels else 2)))"
+
+def _native_levels(vals, np, om):
+    from collections import OrderedDict
+    from openmdao.drivers.doe_generators import _pyDOE_Generator
+    sv = vals['self']
+    lv = sv['_levels']
+    g = _pyDOE_Generator(levels=(int(lv) if not isinstance(lv, dict) else {k: int(v) for k, v in lv.items()}))
+    if '_sizes' in sv:
+        g._sizes = OrderedDict((k, int(v)) for k, v in sv['_sizes'].items())
+    kw = dict(self=g)
+    if 'name' in vals:
+        kw['name'] = vals['name']
+    return kw, {}
+
+
+for nm in ('x', 'y'):
+    contract(DG + '::_pyDOE_Generator._get_dv_levels', ['C23'],
+             dict(self=Obj('_pyDOE_Generator', _levels=OneOf(LV(), LEVEL_DICTS)), name=nm),
+             ensures=['result == ' + REQ % (nm, nm)], modifies=[], returns=Int(), native=_native_levels,
+             name=DG + '::_pyDOE_Generator._get_dv_levels[%s]' % nm,
+             canaries=[('"default" entry ignored', ('levels.get(name, levels.get("default", _LEVELS))', 'levels.get(name, _LEVELS)'), 'post')] if nm == 'x' else [])
+
+contract(DG + '::_pyDOE_Generator._get_all_levels', ['C23'],
+         dict(self=Obj('_pyDOE_Generator', _levels=OneOf(LV(), LEVEL_DICTS),
+                       _sizes=DictT({'x': OneOf(1, 2, 3), 'y': OneOf(1, 2)}))),
+         ensures=["len(result) == self._sizes['x'] + self._sizes['y']",
+                  "all(result[i] == (%s if i < self._sizes['x'] else %s) for i in range(self._sizes['x'] + self._sizes['y']))" % (REQ % ('x', 'x'), REQ % ('y', 'y'))],
+         modifies=[], name=DG + '::_pyDOE_Generator._get_all_levels', native=_native_levels,
+         canaries=[('variable sizes ignored (one factor per variable)', ('v * [self._get_dv_levels(k)]', '[self._get_dv_levels(k)]'), 'post')])
